@@ -3329,7 +3329,7 @@ template< size_t L>
    size_t FixedString< L>::find_last_of( const char* str, size_t pos,
       size_t count) const noexcept
 {
-   if ((pos > mLength) || (str == nullptr) || (count == 0))
+   if ((pos >= mLength) || (str == nullptr) || (count == 0))
       return std::string::npos;
    for (size_t idx = pos + 1; idx-- > 0; )
    {
@@ -3409,7 +3409,7 @@ template< size_t L>
    size_t FixedString< L>::find_last_not_of( const char* str, size_t pos,
       size_t count) const noexcept
 {
-   if ((pos > mLength) || (str == nullptr) || (count == 0))
+   if ((pos >= mLength) || (str == nullptr) || (count == 0))
       return std::string::npos;
    for (size_t idx = pos + 1; idx-- > 0; )
    {
